@@ -129,14 +129,17 @@ def finalizedInput (validKey : Bytes → Bool) (pin : PsbtIn) : Except Err (Byte
   let cmds := bip147Dummy validKey pin ++ sigs
   let redeem : List Bytes := if pin.redeemScript.isEmpty then [] else [pin.redeemScript]
   let script := spentScript pin
-  if !pin.witnessScript.isEmpty then
-    pure (serializePushes redeem, cmds ++ [pin.witnessScript])
+  if !pin.witnessScript.isEmpty then do
+    -- a pkh() wrapped in a wsh() is given its key as a p2pkh is
+    let keys ← if isP2pkh pin.witnessScript then (singleKey pin).map fun k => [k] else pure []
+    pure (serializePushes redeem, cmds ++ (keys ++ [pin.witnessScript]))
   else if isP2wpkh script then do
     let k ← singleKey pin
     pure (serializePushes redeem, sigs ++ [k])
   else if isP2pkh script then do
     let k ← singleKey pin
-    pure (serializePushes (sigs ++ [k]), [])
+    -- the redeem script last, `script` being it for a pkh() in a sh()
+    pure (serializePushes (sigs ++ (k :: redeem)), [])
   else pure (serializePushes (cmds ++ redeem), [])
 
 /-! ## the Finalizer (taproot) -/
